@@ -400,6 +400,17 @@ def _complex(case, ctx, S):
                 check_mem(whole[off:off + 2 * psize], what)
                 check_read(got, what)
             elif path == 'cast':
+                # the same value held by a complex cdata of the *wider* type as the source of plain stores:
+                # each part is converted like the Python complex it stands for (not copied byte-wise)
+                zc = ffi.cast('double _Complex', z)
+                pz = ffi.new(t + ' *', zc)
+                check_mem(bytes(ffi.buffer(pz)), what + ' (source: a double _Complex cdata, ffi.new)')
+                pz = ffi.new(t + '[2]')
+                pz[1] = zc
+                check_mem(bytes(ffi.buffer(pz))[2 * psize:], what + ' (source: a double _Complex cdata, item store)')
+                ps = ffi.new('struct s_%s *' % N)
+                ps.f = zc
+                check_read(ps.f, what + ' (source: a double _Complex cdata, field store)')
                 c = ffi.cast(t, z)
                 check_read(complex(c), what)
                 p = ffi.new(t + ' *', c)
